@@ -350,3 +350,59 @@ Proof.
     pose proof (spec_items_ignored root fs run_inc t its st Hi) as N. rewrite H in N. now cbn in N.
   - pose proof (spec_module_ignored root fs run_inc t st Hi) as N. rewrite H in N. now cbn in N.
 Qed.
+
+(* ------------------------------------------------------------------ where the code IS the property text *)
+(* The four recorded deviations (K2-K5) need a loop, an include, task vars, or ignore_errors.  On
+   tasks that use none of them the switches are irrelevant: the mirror of the code and the behaviour
+   the properties describe are the same function, so every spec-level theorem holds of the code there. *)
+Definition quirk_free (t : task) : bool :=
+  andb (match t_loop t with None => true | Some _ => false end)
+ (andb (match t_vars t with [] => true | _ => false end)
+ (andb (negb (is_include t)) (negb (t_ignore t)))).
+
+Lemma quirk_free_task q q' root fs run_inc t st :
+  quirk_free t = true -> exec_task q root fs run_inc t st = exec_task q' root fs run_inc t st.
+Proof.
+  unfold quirk_free. intro H.
+  apply andb_true_iff in H as [Hl H]. apply andb_true_iff in H as [Hv H]. apply andb_true_iff in H as [Hi Hg].
+  apply negb_true_iff in Hi, Hg.
+  unfold exec_task. destruct (t_loop t); [discriminate|].
+  unfold exec_module, extend_vars, render_failure.
+  destruct (t_vars t) eqn:Ev; [|discriminate]. cbn [render_map map app].
+  rewrite Hg. rewrite !andb_false_r.
+  destruct (match t_when t with Some e => cond st e | None => Some true end) as [[|]|]; try reflexivity.
+  assert (E : exec_mod q root fs run_inc t st st = exec_mod q' root fs run_inc t st st).
+  { unfold exec_mod. unfold is_include in Hi. destruct (t_mod t); try reflexivity; try discriminate.
+    - destruct (q_no_task_vars q), (q_no_task_vars q'); reflexivity.
+    - destruct (q_no_task_vars q), (q_no_task_vars q'); reflexivity. }
+  rewrite E. destruct (exec_mod q' root fs run_inc t st st) as [evs r|evs msg|]; try reflexivity.
+  destruct (t_changed_when t) as [e|]; [|reflexivity].
+  destruct (q_no_task_vars q), (q_no_task_vars q'); reflexivity.
+Qed.
+
+Theorem quirk_free_program q q' root fs run_inc ts : forall st,
+  forallb quirk_free ts = true -> exec_list q root fs run_inc ts st = exec_list q' root fs run_inc ts st.
+Proof.
+  induction ts as [|t r IH]; intros st H; [reflexivity|].
+  cbn [forallb] in H. apply andb_true_iff in H as [Ht Hr]. cbn [exec_list].
+  rewrite (quirk_free_task q q' root fs run_inc t st Ht).
+  destruct (exec_task q' root fs run_inc t st) as [evs [st'|]]; [|reflexivity].
+  now rewrite (IH st' Hr).
+Qed.
+
+(* in particular: the code mirror equals the property-text semantics on such programs *)
+Corollary mirror_is_spec_on_quirk_free_programs root fs run_inc ts st :
+  forallb quirk_free ts = true ->
+  exec_list mirror_quirks root fs run_inc ts st = exec_list spec_quirks root fs run_inc ts st.
+Proof. apply quirk_free_program. Qed.
+
+(* non-vacuity: when, register, changed_when, set_vars, assert, failing commands are all inside the fragment *)
+Example quirk_free_example :
+  forallb quirk_free
+    [ {| t_when := Some (EDefined ["a"]); t_loop := None; t_register := Some "r"; t_vars := []; t_ignore := false;
+         t_changed_when := Some (EBool false); t_mod := MCommand "l" "out" 0 |};
+      {| t_when := None; t_loop := None; t_register := None; t_vars := []; t_ignore := false;
+         t_changed_when := None; t_mod := MSetVars [("a", [TVar ["r"; "output"]])] |};
+      {| t_when := None; t_loop := None; t_register := None; t_vars := []; t_ignore := false;
+         t_changed_when := None; t_mod := MAssert [EEq (EVar ["a"]) (EStr "out")] |} ] = true.
+Proof. reflexivity. Qed.
